@@ -841,7 +841,152 @@ def oracle_chain_get(case):
     return True, "ok"
 
 
+def run_coupled_chain(case, scale):
+    """real PtTebd on a COUPLED spin chain (nearest-neighbour Hamiltonians, non-trivial bond
+    dimension) with one control `scale * op`; recorded single-site states [step][site]"""
+    import oqupy
+    n = case["nsites"]
+    sig = [0.5 * pauli(a) for a in "xyz"]
+    chain = oqupy.SystemChain([2] * n)
+    for i in range(n):
+        chain.add_site_hamiltonian(i, unjmat(case["site_hams"][i]))
+    for i in range(n - 1):
+        for j, sg in zip(case["couplings"][i], sig):
+            chain.add_nn_hamiltonian(i, j * sg, sg)
+    cc = oqupy.ChainControl([2] * n)
+    cc.add_single_site_control(scale * unjmat(case["op"]), int(case["site"]), int(case["step"]),
+                               post=bool(case["post"]))
+    for r in case.get("others", []):
+        cc.add_single_site_control(unjmat(r["op"]), int(r["site"]), int(r["step"]), post=bool(r["post"]))
+    mps = oqupy.AugmentedMPS([unjmat(x) for x in case["states"]])
+    par = oqupy.PtTebdParameters(dt=case["dt"], order=2, epsrel=case["epsrel"])
+    t = oqupy.PtTebd(mps, chain, [None] * n, par, chain_control=cc, dynamics_sites=list(range(n)))
+    r = t.compute(case["nsteps"], progress_type="silent")
+    return [[np.array(r["dynamics"][i].states[k]) for i in range(n)] for k in range(case["nsteps"] + 1)]
+
+
+def oracle_chain_homogeneity(case):
+    """A control acts once AS THE GIVEN MAP, also a strongly attenuating one: everything after it
+    is linear, so the run with c*C records exactly c times what the run with C records from the
+    control on (and the same before it)."""
+    full = run_coupled_chain(case, 1.0)
+    # the two runs may truncate a Schmidt value sitting at the requested threshold differently:
+    # agreement is demanded up to the requested truncation tolerance, not beyond
+    tol = max(1e-8, 5.0 * case["epsrel"])
+    for c in case["scales"]:
+        try:
+            weak = run_coupled_chain(case, c)
+        except Exception as e:                                    # noqa: BLE001
+            return False, "run with the control scaled by %g raised %s: %s" % (c, type(e).__name__, e)
+        for k in range(case["nsteps"] + 1):
+            after = k > case["step"] or (k == case["step"] and not case["post"])
+            f = c if after else 1.0
+            for i in range(case["nsites"]):
+                ref = f * full[k][i]
+                err = np.max(np.abs(weak[k][i] - ref))
+                if not err <= tol * max(np.max(np.abs(ref)), 1e-300):
+                    return False, ("control scaled by %g: site %d at step %d is not %g times the run with "
+                                   "the unscaled control (relative deviation %.2e)"
+                                   % (c, i, k, f, err / max(np.max(np.abs(ref)), 1e-300)))
+    return True, "ok"
+
+
+def gen_homogeneity_case(rng, nsites=None, scales=(1e-6, 1e-9, 1e-12)):
+    n = nsites or rng.choice([3, 4])
+    nsteps = 3
+    theta = rng.choice([0.9, 0.5, 1.3])
+    u = np.cos(theta / 2) * np.eye(2) - 1j * np.sin(theta / 2) * pauli(rng.choice("xy"))
+    kind = rng.choice(["kick", "filter"])
+    if kind == "kick":
+        opm = lr_super(u, u.conj().T)
+    else:                        # a weak-measurement (Kraus) operator: non-trace-preserving
+        k = np.diag([1.0, 0.5]) @ u
+        opm = lr_super(k, k.conj().T)
+    dms = {"z+": [[1, 0], [0, 0]], "z-": [[0, 0], [0, 1]], "x+": [[.5, .5], [.5, .5]],
+           "y+": [[.5, -.5j], [.5j, .5]]}
+    return {"api": "PtTebd-homogeneity", "nsites": n, "nsteps": nsteps, "dt": 0.1,
+            "epsrel": rng.choice([1e-7, 1e-9]),
+            "site_hams": [jmat(0.7 * 0.5 * pauli("z") + 0.2 * 0.5 * pauli("x")) for _ in range(n)],
+            "couplings": [[rng.choice([1.3, 0.9]), rng.choice([0.7, 1.1]), 1.2] for _ in range(n - 1)],
+            "states": [jmat(np.array(dms[rng.choice(sorted(dms))], dtype=complex)) for _ in range(n)],
+            "op": jmat(opm), "site": rng.randrange(n), "step": rng.choice([0, 1, 1, 2]),
+            "post": rng.random() < 0.5, "scales": list(scales)}
+
+
+def oracle_single_linearity(case):
+    """compute_dynamics is linear in a control map: scaling a control by c scales every state
+    recorded from it on by c; a control C1 + C2 gives the sum of the runs with C1 and with C2."""
+    import oqupy
+    from . import oq
+    d, n, dt, start = case["d"], case["num_steps"], case["dt"], case["start"]
+    h, rho = unjmat(case["ham"]), unjmat(case["state"])
+    stp, post = int(case["step"]), bool(case["post"])
+    others = [(c["post"], c["kind"], c["key"], unjmat(c["op"]), "") for c in case["calls"]]
+
+    def runc(a):
+        calls = others + [(post, "i", stp, a, "")]
+        pts = [oq.identity_pt(n, d)] if case.get("pt") and n > 0 else None
+        with quiet():
+            dyn = oqupy.compute_dynamics(system=oqupy.System(h), initial_state=rho.copy(), dt=dt,
+                                         num_steps=n, start_time=start, process_tensor=pts,
+                                         control=make_control(d, calls), progress_type="silent")
+        return [np.array(x) for x in dyn.states]
+    c1, c2 = unjmat(case["op"]), unjmat(case["op2"])
+    r1, r2, r12 = runc(c1), runc(c2), runc(c1 + c2)
+    first = stp if not post else stp + 1
+    for k in range(n + 1):
+        want = r1[k] + r2[k] if k >= first else r1[k]
+        if not close(r12[k], want, 1e-9):
+            return False, "state %d with control C1+C2 is not the sum of the runs with C1 and with C2" % k
+    for c in case["scales"]:
+        rc = runc(c * c1)
+        for k in range(n + 1):
+            ref = (c if k >= first else 1.0) * r1[k]
+            err = np.max(np.abs(rc[k] - ref))
+            if not err <= 1e-9 * max(np.max(np.abs(ref)), 1e-300):
+                return False, ("control scaled by %g: state %d is not %g times the run with the unscaled "
+                               "control" % (c, k, c if k >= first else 1.0))
+    return True, "ok"
+
+
+KEY_HOMOG_CHAIN = "PtTebd: run with a control scaled by c is c times the run with the control"
+KEY_LINEAR_SINGLE = "compute_dynamics: recorded states are linear in a control map"
+
+
+def metamorphic(res, rng, tier):
+    """Linearity / homogeneity in the control map on the real code (coupled chains with
+    non-trivial bond dimension are outside the product-state model, so this is checked as a
+    relation between runs).  A failing input is reported directly."""
+    nch = 4 if tier == "quick" else 24
+    for i in range(nch):
+        case = gen_homogeneity_case(rng, nsites=3 if i % 2 == 0 else 4)
+        ok, detail = oracle_chain_homogeneity(case)
+        res.case("homogeneity:chain:%d" % i, True,
+                 {"op": "PtTebd %d coupled sites, control x %s" % (case["nsites"], case["scales"]),
+                  "agree": ok} if i == 0 else None)
+        res.count("homogeneity:chain:sites=%d" % case["nsites"])
+        if not ok:
+            res.fail(KEY_HOMOG_CHAIN, dict(case, how=detail))
+    nsg = 6 if tier == "quick" else 40
+    for i in range(nsg):
+        n = rng.randrange(1, 4)
+        dt, start = rng.choice(DTS), rng.choice(STARTS)
+        base = single_case(rng, 2, n, dt, start,
+                           gen_calls(rng, 2, n, dt, start, allow_float=False, gentle=True, ncalls=2))
+        case = dict(base, api="compute_dynamics-linearity", step=rng.randrange(0, n + 1),
+                    post=rng.random() < 0.5, op=jmat(rand_superop(rng, 2, "nontp", True)[0]),
+                    op2=jmat(rand_superop(rng, 2, "nontp", True)[0]), scales=[1e-6, 1e-12],
+                    pt=bool(i % 2))
+        ok, detail = oracle_single_linearity(case)
+        res.case("linearity:single:%d" % i, True)
+        res.count("linearity:single:pt=%s" % case["pt"])
+        if not ok:
+            res.fail(KEY_LINEAR_SINGLE, dict(case, how=detail))
+
+
 ORACLES = {"compute_dynamics": oracle_single, "PtTebd": oracle_chain,
+           "PtTebd-homogeneity": oracle_chain_homogeneity,
+           "compute_dynamics-linearity": oracle_single_linearity,
            "Control.get_controls": oracle_get_controls_mixed,
            "ChainControl.get_single_site_controls": oracle_chain_get}
 
@@ -991,6 +1136,9 @@ def search(res, rng=None):
             multi[tag] = multi.get(tag, 0) + 1
         run(KEY_CHAIN_ORDER + " (PtTebd run)" if max(multi.values()) > 1 else
             "PtTebd controls: step, side of measurement, site", case)
+    # -- linearity in the control map (strongly attenuating controls on coupled chains) -------------
+    for i in range(3):
+        run(KEY_HOMOG_CHAIN, gen_homogeneity_case(rng, nsites=3 + i % 2))
     # -- random single-system schedules without mixed keys ---------------------------------------
     for i in range(25):
         dt, start = rng.choice(DTS), rng.choice(STARTS)
@@ -1081,6 +1229,8 @@ def run(tier, seed, replay):
         "binary64 model: round-to-nearest-even on rationals, no overflow/subnormal/NaN; dt > 0",
         "the executable matrix instance (Array-based product) is matrix multiplication; it is "
         "compared with numpy on every correspondence case",
+        "linearity / homogeneity in the control map (also strongly attenuating maps on coupled chains "
+        "with non-trivial bond dimension) is checked as a relation between real runs, not proved",
         "PtTebd is modelled without truncation error (product states, epsrel=1e-13 in the runs) and "
         "its nearest-neighbour gate layers / process tensors enter as arbitrary maps `layers`, `pts`",
         "keys of add_single are Python int or float (numpy integers raise TypeError in the code)",
@@ -1124,6 +1274,7 @@ def run(tier, seed, replay):
             correspondence(res, tier, rng)
         else:
             res.notes.append("correspondence skipped: generated model unavailable")
+        metamorphic(res, random.Random(seed + 1), tier)
     except fw.Infra as e:
         res.oblige("correspondence run", False, str(e))
     return fw.finish(res, search)
